@@ -8,6 +8,7 @@ what the model does, the theorem of that opcode fails and names it.
 import JanetModel.Gen.PegSkel
 import JanetModel.Gen.Peg
 import JanetModel.Peg.Skel
+import JanetModel.Peg.SkelCongr
 
 namespace JanetModel.Peg.TieSkel
 open JanetModel.Peg JanetModel.Peg.Skel
@@ -598,7 +599,7 @@ theorem rule_choice (E : Env) (k : OK ρ) (n fuel : Nat) (rs : List ρ) (s : St)
           have h2le : 2 ≤ 1 + rs.length := by omega
           have hx : rs[1 + rs.length - 2]? = some r := by
             rw [show 1 + rs.length - 2 = rs.length - 1 by omega]; exact hr
-          simp [Gen.PegSkel.RULE_CHOICE_rest0, execL, execStmt, evalRE, opsList, opsWord, h2le, hx, hp, bind, Except.bind]
+          simp [Gen.PegSkel.RULE_CHOICE_rest0, execL, execStmt, evalRE, opsList, opsWord, h2le, hx, hr, hp, bind, Except.bind]
           cases k r (up1 s) pos <;> rfl)
         (rs.length - 1) 0 fuel
         { ptr := fun x => if x = 0 then some pos else none, cs := upd (fun _ => ⟨0, 0, 0⟩) 0 (capSave s0), val := fun _ => .nil,
@@ -707,7 +708,7 @@ theorem rule_sequence (E : Env) (k : OK ρ) (n fuel : Nat) (rs : List ρ) (s : S
           have h2le : 2 ≤ 1 + rs.length := by omega
           have hx : rs[1 + rs.length - 2]? = some r := by
             rw [show 1 + rs.length - 2 = rs.length - 1 by omega]; exact hr
-          simp [Gen.PegSkel.RULE_SEQUENCE_rest0, execL, execStmt, evalCond, evalRE, opsList, opsWord, h2le, hx, hp, bind, Except.bind]
+          simp [Gen.PegSkel.RULE_SEQUENCE_rest0, execL, execStmt, evalCond, evalRE, opsList, opsWord, h2le, hx, hr, hp, bind, Except.bind]
           cases k r (up1 s) pos <;> rfl)
         (rs.length - 1) 0 fuel
         { ptr := fun x => if x = 0 then some pos else none, cs := fun _ => ⟨0, 0, 0⟩, val := fun _ => .nil,
@@ -1622,5 +1623,358 @@ example : (runL exE exK (ops [(1, 7)] [(2, 0)]) 5 Gen.PegSkel.RULE_UNREF exS 0).
 example : Op.step exE exK 10 (.split 3 7) exS 0 ≠ .error .fuel := by
   intro h; have := congrArg (fun r : ORes => match r with | .error .fuel => true | _ => false) h; simp at this; revert this; decide
 end Examples
+
+section Decoded
+open JanetModel.Gen.Peg
+
+/-! #### the operand layout, extracted: `rule_x` on the RAW words of the bytecode
+
+`rule_x` above names the operands of the instruction (`ops [(1, a), (2, b)] ..`).  Here the extracted program runs on `rawOps P pc len`
+- `rule[j]` IS word `pc + j` of the bytecode for `j < len` (the instruction's own words; nothing beyond them) - and the instruction
+is what `Decode.decode P pc` returns.  Which positions the C reads comes from the extracted program (`Skel.okProg`, decided by the
+kernel), which positions the decoder reads comes from `decode`; an operand the C takes from another position than the decoder
+(or from beyond the instruction) breaks `decoded_x`. -/
+
+/-- the operand words of the instruction at `pc` that occupies `len` words, as the C sees them through `rule[k]` -/
+def rawOps (P : Program) (pc len : Nat) : Operands Nat :=
+  { rule := fun j => if j < len then some (P.word (pc + j)) else none,
+    word := fun j => if j < len then P.word (pc + j) else 0,
+    const := fun j => (P.constants[P.word (pc + j)]?).getD .nil,
+    bytes := fun j => (List.range (P.word (pc + 1))).map (P.litByte (pc + j)) }
+
+macro "agree_tac" : tactic =>
+  `(tactic| (constructor <;> intro j hj <;> simp [FP.W, FP.R, FP.C, FP.B] at hj <;>
+      (try rcases hj with h | h | h | h) <;> (try subst h) <;> simp [rawOps, ops, opsRepl, opsRule, opsWord, *]))
+macro "decode_tac" hpc:ident hop:ident : tactic =>
+  `(tactic| simp +decide [decode, Nat.not_le.mpr $hpc, $hop:ident, *])
+
+theorem decoded_if (E : Env) (k : OK Nat) (n : Nat) (P : Program) (pc : Nat) (s : St) (pos : Nat)
+    (hpc : pc < P.bytecode.size) (hop : P.word pc = RULE_IF) :
+    ∃ i, decode P pc = some i ∧ run E k (rawOps P pc 3) Gen.PegSkel.RULE_IF s pos = Op.step E k n i s pos := by
+  refine ⟨.if_ (P.word (pc + 1)) (P.word (pc + 2)), by decode_tac hpc hop, ?_⟩
+  rw [← rule_if E k n _ _ s pos]
+  exact run_congr (f := { r := [1, 2] }) (by agree_tac) E k _ (by decide) s pos
+
+theorem decoded_ifnot (E : Env) (k : OK Nat) (n : Nat) (P : Program) (pc : Nat) (s : St) (pos : Nat)
+    (hpc : pc < P.bytecode.size) (hop : P.word pc = RULE_IFNOT) :
+    ∃ i, decode P pc = some i ∧ run E k (rawOps P pc 3) Gen.PegSkel.RULE_IFNOT s pos = Op.step E k n i s pos := by
+  refine ⟨.ifnot (P.word (pc + 1)) (P.word (pc + 2)), by decode_tac hpc hop, ?_⟩
+  rw [← rule_ifnot E k n _ _ s pos]
+  exact run_congr (f := { r := [1, 2] }) (by agree_tac) E k _ (by decide) s pos
+
+theorem decoded_not (E : Env) (k : OK Nat) (n : Nat) (P : Program) (pc : Nat) (s : St) (pos : Nat)
+    (hpc : pc < P.bytecode.size) (hop : P.word pc = RULE_NOT) :
+    ∃ i, decode P pc = some i ∧ run E k (rawOps P pc 2) Gen.PegSkel.RULE_NOT s pos = Op.step E k n i s pos := by
+  refine ⟨.not (P.word (pc + 1)), by decode_tac hpc hop, ?_⟩
+  rw [← rule_not E k n _ s pos]
+  exact run_congr (f := { r := [1] }) (by agree_tac) E k _ (by decide) s pos
+
+theorem decoded_drop (E : Env) (k : OK Nat) (n : Nat) (P : Program) (pc : Nat) (s : St) (pos : Nat)
+    (hpc : pc < P.bytecode.size) (hop : P.word pc = RULE_DROP) :
+    ∃ i, decode P pc = some i ∧ run E k (rawOps P pc 2) Gen.PegSkel.RULE_DROP s pos = Op.step E k n i s pos := by
+  refine ⟨.drop (P.word (pc + 1)), by decode_tac hpc hop, ?_⟩
+  rw [← rule_drop E k n _ s pos]
+  exact run_congr (f := { r := [1] }) (by agree_tac) E k _ (by decide) s pos
+
+theorem decoded_only_tags (E : Env) (k : OK Nat) (n : Nat) (P : Program) (pc : Nat) (s : St) (pos : Nat)
+    (hpc : pc < P.bytecode.size) (hop : P.word pc = RULE_ONLY_TAGS) :
+    ∃ i, decode P pc = some i ∧ run E k (rawOps P pc 2) Gen.PegSkel.RULE_ONLY_TAGS s pos = Op.step E k n i s pos := by
+  refine ⟨.onlytags (P.word (pc + 1)), by decode_tac hpc hop, ?_⟩
+  rw [← rule_only_tags E k n _ s pos]
+  exact run_congr (f := { r := [1] }) (by agree_tac) E k _ (by decide) s pos
+
+theorem decoded_sub (E : Env) (k : OK Nat) (n : Nat) (P : Program) (pc : Nat) (s : St) (pos : Nat)
+    (hpc : pc < P.bytecode.size) (hop : P.word pc = RULE_SUB) :
+    ∃ i, decode P pc = some i ∧ run E k (rawOps P pc 3) Gen.PegSkel.RULE_SUB s pos = Op.step E k n i s pos := by
+  refine ⟨.sub (P.word (pc + 1)) (P.word (pc + 2)), by decode_tac hpc hop, ?_⟩
+  rw [← rule_sub E k n _ _ s pos]
+  exact run_congr (f := { r := [1, 2] }) (by agree_tac) E k _ (by decide) s pos
+
+theorem decoded_accumulate (E : Env) (k : OK Nat) (n : Nat) (P : Program) (pc : Nat) (s : St) (pos : Nat)
+    (hpc : pc < P.bytecode.size) (hop : P.word pc = RULE_ACCUMULATE) :
+    ∃ i, decode P pc = some i ∧ run E k (rawOps P pc 3) Gen.PegSkel.RULE_ACCUMULATE s pos = Op.step E k n i s pos := by
+  refine ⟨.accumulate (P.word (pc + 1)) (P.word (pc + 2)), by decode_tac hpc hop, ?_⟩
+  rw [← rule_accumulate E k n _ _ s pos]
+  exact run_congr (f := { r := [1], w := [2] }) (by agree_tac) E k _ (by decide) s pos
+
+theorem decoded_capture (E : Env) (k : OK Nat) (n : Nat) (P : Program) (pc : Nat) (s : St) (pos : Nat)
+    (hpc : pc < P.bytecode.size) (hop : P.word pc = RULE_CAPTURE) :
+    ∃ i, decode P pc = some i ∧ run E k (rawOps P pc 3) Gen.PegSkel.RULE_CAPTURE s pos = Op.step E k n i s pos := by
+  refine ⟨.capture (P.word (pc + 1)) (P.word (pc + 2)), by decode_tac hpc hop, ?_⟩
+  rw [← rule_capture E k n _ _ s pos]
+  exact run_congr (f := { r := [1], w := [2] }) (by agree_tac) E k _ (by decide) s pos
+
+theorem decoded_position (E : Env) (k : OK Nat) (n : Nat) (P : Program) (pc : Nat) (s : St) (pos : Nat)
+    (hpc : pc < P.bytecode.size) (hop : P.word pc = RULE_POSITION) :
+    ∃ i, decode P pc = some i ∧ run E k (rawOps P pc 2) Gen.PegSkel.RULE_POSITION s pos = Op.step E k n i s pos := by
+  refine ⟨.position (P.word (pc + 1)), by decode_tac hpc hop, ?_⟩
+  rw [← rule_position E k n _ s pos]
+  exact run_congr (f := { w := [1] }) (by agree_tac) E k _ (by decide) s pos
+
+theorem decoded_constant (E : Env) (k : OK Nat) (n : Nat) (P : Program) (pc : Nat) (s : St) (pos : Nat)
+    (hpc : pc < P.bytecode.size) (hop : P.word pc = RULE_CONSTANT) (v : Val)
+    (hv : P.constants[P.word (pc + 1)]? = some v) :
+    ∃ i, decode P pc = some i ∧ run E k (rawOps P pc 3) Gen.PegSkel.RULE_CONSTANT s pos = Op.step E k n i s pos := by
+  refine ⟨.constant v (P.word (pc + 2)), by decode_tac hpc hop, ?_⟩
+  rw [← rule_constant E k n v _ s pos]
+  exact run_congr (f := { c := [1], w := [2] }) (by agree_tac) E k _ (by decide) s pos
+
+theorem decoded_group (E : Env) (k : OK Nat) (n : Nat) (P : Program) (pc : Nat) (s : St) (pos : Nat)
+    (hpc : pc < P.bytecode.size) (hop : P.word pc = RULE_GROUP) :
+    ∃ i, decode P pc = some i ∧ run E k (rawOps P pc 3) Gen.PegSkel.RULE_GROUP s pos = Op.step E k n i s pos := by
+  refine ⟨.group (P.word (pc + 1)) (P.word (pc + 2)), by decode_tac hpc hop, ?_⟩
+  rw [← rule_group E k n _ _ s pos]
+  exact run_congr (f := { r := [1], w := [2] }) (by agree_tac) E k _ (by decide) s pos
+
+theorem decoded_nth (E : Env) (k : OK Nat) (n : Nat) (P : Program) (pc : Nat) (s : St) (pos : Nat)
+    (hpc : pc < P.bytecode.size) (hop : P.word pc = RULE_NTH) :
+    ∃ i, decode P pc = some i ∧ run E k (rawOps P pc 4) Gen.PegSkel.RULE_NTH s pos = Op.step E k n i s pos := by
+  refine ⟨.nth (P.word (pc + 1)) (P.word (pc + 2)) (P.word (pc + 3)), by decode_tac hpc hop, ?_⟩
+  rw [← rule_nth E k n _ _ _ s pos]
+  exact run_congr (f := { r := [2], w := [1, 3] }) (by agree_tac) E k _ (by decide) s pos
+
+theorem decoded_error (E : Env) (k : OK Nat) (n : Nat) (P : Program) (pc : Nat) (s : St) (pos : Nat)
+    (hpc : pc < P.bytecode.size) (hop : P.word pc = RULE_ERROR) :
+    ∃ i, decode P pc = some i ∧ run E k (rawOps P pc 2) Gen.PegSkel.RULE_ERROR s pos = Op.step E k n i s pos := by
+  refine ⟨.error (P.word (pc + 1)), by decode_tac hpc hop, ?_⟩
+  rw [← rule_error E k n _ s pos]
+  exact run_congr (f := { r := [1] }) (by agree_tac) E k _ (by decide) s pos
+
+theorem decoded_nchar (E : Env) (k : OK Nat) (n : Nat) (P : Program) (pc : Nat) (s : St) (pos : Nat)
+    (hpc : pc < P.bytecode.size) (hop : P.word pc = RULE_NCHAR) :
+    ∃ i, decode P pc = some i ∧ run E k (rawOps P pc 2) Gen.PegSkel.RULE_NCHAR s pos = Op.step E k n i s pos := by
+  refine ⟨.nchar (P.word (pc + 1)), by decode_tac hpc hop, ?_⟩
+  rw [← rule_nchar E k n _ s pos]
+  exact run_congr (f := { w := [1] }) (by agree_tac) E k _ (by decide) s pos
+
+theorem decoded_notnchar (E : Env) (k : OK Nat) (n : Nat) (P : Program) (pc : Nat) (s : St) (pos : Nat)
+    (hpc : pc < P.bytecode.size) (hop : P.word pc = RULE_NOTNCHAR) :
+    ∃ i, decode P pc = some i ∧ run E k (rawOps P pc 2) Gen.PegSkel.RULE_NOTNCHAR s pos = Op.step E k n i s pos := by
+  refine ⟨.notnchar (P.word (pc + 1)), by decode_tac hpc hop, ?_⟩
+  rw [← rule_notnchar E k n _ s pos]
+  exact run_congr (f := { w := [1] }) (by agree_tac) E k _ (by decide) s pos
+
+theorem decoded_line (E : Env) (k : OK Nat) (n : Nat) (P : Program) (pc : Nat) (s : St) (pos : Nat)
+    (hpc : pc < P.bytecode.size) (hop : P.word pc = RULE_LINE) :
+    ∃ i, decode P pc = some i ∧ run E k (rawOps P pc 2) Gen.PegSkel.RULE_LINE s pos = Op.step E k n i s pos := by
+  refine ⟨.line (P.word (pc + 1)), by decode_tac hpc hop, ?_⟩
+  rw [← rule_line E k n _ s pos]
+  exact run_congr (f := { w := [1] }) (by agree_tac) E k _ (by decide) s pos
+
+theorem decoded_column (E : Env) (k : OK Nat) (n : Nat) (P : Program) (pc : Nat) (s : St) (pos : Nat)
+    (hpc : pc < P.bytecode.size) (hop : P.word pc = RULE_COLUMN) :
+    ∃ i, decode P pc = some i ∧ run E k (rawOps P pc 2) Gen.PegSkel.RULE_COLUMN s pos = Op.step E k n i s pos := by
+  refine ⟨.column (P.word (pc + 1)), by decode_tac hpc hop, ?_⟩
+  rw [← rule_column E k n _ s pos]
+  exact run_congr (f := { w := [1] }) (by agree_tac) E k _ (by decide) s pos
+
+theorem decoded_argument (E : Env) (k : OK Nat) (n : Nat) (P : Program) (pc : Nat) (s : St) (pos : Nat)
+    (hpc : pc < P.bytecode.size) (hop : P.word pc = RULE_ARGUMENT) :
+    ∃ i, decode P pc = some i ∧ run E k (rawOps P pc 3) Gen.PegSkel.RULE_ARGUMENT s pos = Op.step E k n i s pos := by
+  refine ⟨.argument (P.word (pc + 1)) (P.word (pc + 2)), by decode_tac hpc hop, ?_⟩
+  rw [← rule_argument E k n _ _ s pos]
+  exact run_congr (f := { w := [1, 2] }) (by agree_tac) E k _ (by decide) s pos
+
+theorem decoded_replace (E : Env) (k : OK Nat) (n : Nat) (P : Program) (pc : Nat) (s : St) (pos : Nat)
+    (hpc : pc < P.bytecode.size) (hop : P.word pc = RULE_REPLACE) (hk : KeepsDepth k) (v : Val)
+    (hv : P.constants[P.word (pc + 2)]? = some v) :
+    ∃ i, decode P pc = some i ∧ run E k (rawOps P pc 4) Gen.PegSkel.RULE_REPLACE s pos = Op.step E k n i s pos := by
+  refine ⟨.replace (P.word (pc + 1)) v (P.word (pc + 3)), by decode_tac hpc hop, ?_⟩
+  rw [← rule_replace E k hk n _ v _ s pos]
+  exact run_congr (f := { r := [1], w := [0, 3], c := [2] }) (by agree_tac) E k _ (by decide) s pos
+
+theorem decoded_matchtime (E : Env) (k : OK Nat) (n : Nat) (P : Program) (pc : Nat) (s : St) (pos : Nat)
+    (hpc : pc < P.bytecode.size) (hop : P.word pc = RULE_MATCHTIME) (hk : KeepsDepth k) (v : Val)
+    (hv : P.constants[P.word (pc + 2)]? = some v) :
+    ∃ i, decode P pc = some i ∧ run E k (rawOps P pc 4) Gen.PegSkel.RULE_MATCHTIME s pos = Op.step E k n i s pos := by
+  refine ⟨.matchtime (P.word (pc + 1)) v (P.word (pc + 3)), by decode_tac hpc hop, ?_⟩
+  rw [← rule_matchtime E k hk n _ v _ s pos]
+  exact run_congr (f := { r := [1], w := [0, 3], c := [2] }) (by agree_tac) E k _ (by decide) s pos
+
+theorem decoded_range (E : Env) (k : OK Nat) (n : Nat) (P : Program) (pc : Nat) (s : St) (pos : Nat)
+    (hpc : pc < P.bytecode.size) (hop : P.word pc = RULE_RANGE) :
+    ∃ i, decode P pc = some i ∧ run E k (rawOps P pc 2) Gen.PegSkel.RULE_RANGE s pos = Op.step E k n i s pos := by
+  refine ⟨.range ((P.word (pc + 1)) % 256) (((P.word (pc + 1)) / 65536) % 256), by decode_tac hpc hop, ?_⟩
+  rw [← rule_range E k n _ s pos]
+  exact run_congr (f := { w := [1] }) (by agree_tac) E k _ (by decide) s pos
+
+theorem decoded_look (E : Env) (k : OK Nat) (n : Nat) (P : Program) (pc : Nat) (s : St) (pos : Nat)
+    (hpc : pc < P.bytecode.size) (hop : P.word pc = RULE_LOOK) :
+    ∃ i, decode P pc = some i ∧ run E k (rawOps P pc 3) Gen.PegSkel.RULE_LOOK s pos = Op.step E k n i s pos := by
+  refine ⟨.look (asInt32 (P.word (pc + 1))) (P.word (pc + 2)), by decode_tac hpc hop, ?_⟩
+  rw [← rule_look E k n _ _ s pos]
+  exact run_congr (f := { r := [2], w := [1] }) (by agree_tac) E k _ (by decide) s pos
+
+theorem decoded_capture_num (E : Env) (k : OK Nat) (n : Nat) (P : Program) (pc : Nat) (s : St) (pos : Nat)
+    (hpc : pc < P.bytecode.size) (hop : P.word pc = RULE_CAPTURE_NUM) (hE : E.numRaw = false) :
+    ∃ i, decode P pc = some i ∧ run E k (rawOps P pc 4) Gen.PegSkel.RULE_CAPTURE_NUM s pos = Op.step E k n i s pos := by
+  refine ⟨.capturenum (P.word (pc + 1)) (P.word (pc + 2)) (P.word (pc + 3)), by decode_tac hpc hop, ?_⟩
+  rw [← rule_capture_num E hE k n _ _ _ s pos]
+  exact run_congr (f := { r := [1], w := [2, 3] }) (by agree_tac) E k _ (by decide) s pos
+
+theorem decoded_literal (E : Env) (k : OK Nat) (n : Nat) (P : Program) (pc : Nat) (s : St) (pos : Nat)
+    (hpc : pc < P.bytecode.size) (hop : P.word pc = RULE_LITERAL) :
+    ∃ i, decode P pc = some i ∧ run E k (rawOps P pc 2) Gen.PegSkel.RULE_LITERAL s pos = Op.step E k n i s pos := by
+  refine ⟨.literal ((List.range (P.word (pc + 1))).map (P.litByte (pc + 2))), by decode_tac hpc hop, ?_⟩
+  rw [← rule_literal E k n _ s pos]
+  exact run_congr (f := { w := [1], b := [2] }) (by agree_tac) E k _ (by decide) s pos
+
+theorem decoded_set (E : Env) (k : OK Nat) (n : Nat) (P : Program) (pc : Nat) (s : St) (pos : Nat)
+    (hpc : pc < P.bytecode.size) (hop : P.word pc = RULE_SET) :
+    ∃ i, decode P pc = some i ∧ run E k (rawOps P pc 9) Gen.PegSkel.RULE_SET s pos = Op.step E k n i s pos := by
+  refine ⟨.set ((List.range 8).map (fun j => P.word (pc + 1 + j))), by decode_tac hpc hop, ?_⟩
+  rw [← rule_set E k n _ s pos]
+  refine run_congr (f := { wFrom := some 1 }) ?_ E k _ (by decide) s pos
+  constructor <;> intro j hj <;> simp [FP.W, FP.R, FP.C, FP.B] at hj
+  simp only [rawOps]
+  by_cases h9 : j < 9
+  · have : j - 1 < 8 := by omega
+    have h2 : pc + 1 + (j - 1) = pc + j := by omega
+    simp [h9, List.getD, this, h2]
+  · have : ¬ (j - 1 < 8) := by omega
+    simp [h9, List.getD, this]
+
+theorem decoded_to (E : Env) (k : OK Nat) (n : Nat) (P : Program) (pc : Nat) (s : St) (pos : Nat)
+    (hpc : pc < P.bytecode.size) (hop : P.word pc = RULE_TO) (hk : KeepsWindow k) :
+    ∃ i, decode P pc = some i ∧
+      Returns (fun fuel => runL E k (rawOps P pc 2) fuel Gen.PegSkel.RULE_TO s pos) (Op.step E k n i s pos) := by
+  refine ⟨.to (P.word (pc + 1)), by decode_tac hpc hop, ?_⟩
+  have hc : (fun fuel => runL E k (rawOps P pc 2) fuel Gen.PegSkel.RULE_TO s pos) =
+      (fun fuel => runL E k ⟨opsRule [(1, (P.word (pc + 1)))], opsWord [(0, if true then RULE_TO else RULE_THRU)], fun _ => .nil, fun _ => []⟩ fuel Gen.PegSkel.RULE_TO s pos) :=
+    funext fun fuel => runL_congr (f := { r := [1], w := [0] }) (by agree_tac) E k fuel _ (by decide) s pos
+  rw [hc]
+  exact rule_to_thru_returns E k hk n true _ s pos
+
+theorem decoded_thru (E : Env) (k : OK Nat) (n : Nat) (P : Program) (pc : Nat) (s : St) (pos : Nat)
+    (hpc : pc < P.bytecode.size) (hop : P.word pc = RULE_THRU) (hk : KeepsWindow k) :
+    ∃ i, decode P pc = some i ∧
+      Returns (fun fuel => runL E k (rawOps P pc 2) fuel Gen.PegSkel.RULE_THRU s pos) (Op.step E k n i s pos) := by
+  refine ⟨.thru (P.word (pc + 1)), by decode_tac hpc hop, ?_⟩
+  have hc : (fun fuel => runL E k (rawOps P pc 2) fuel Gen.PegSkel.RULE_THRU s pos) =
+      (fun fuel => runL E k ⟨opsRule [(1, (P.word (pc + 1)))], opsWord [(0, if false then RULE_TO else RULE_THRU)], fun _ => .nil, fun _ => []⟩ fuel Gen.PegSkel.RULE_TO s pos) :=
+    funext fun fuel => runL_congr (f := { r := [1], w := [0] }) (by agree_tac) E k fuel _ (by decide) s pos
+  rw [hc]
+  exact rule_to_thru_returns E k hk n false _ s pos
+
+theorem decoded_til (E : Env) (k : OK Nat) (n : Nat) (P : Program) (pc : Nat) (s : St) (pos : Nat)
+    (hpc : pc < P.bytecode.size) (hop : P.word pc = RULE_TIL) (hk : KeepsWindow k) :
+    ∃ i, decode P pc = some i ∧
+      Returns (fun fuel => runL E k (rawOps P pc 3) fuel Gen.PegSkel.RULE_TIL s pos) (Op.step E k n i s pos) := by
+  refine ⟨.til (P.word (pc + 1)) (P.word (pc + 2)), by decode_tac hpc hop, ?_⟩
+  have hc : (fun fuel => runL E k (rawOps P pc 3) fuel Gen.PegSkel.RULE_TIL s pos) =
+      (fun fuel => runL E k (ops [(1, (P.word (pc + 1))), (2, (P.word (pc + 2)))] []) fuel Gen.PegSkel.RULE_TIL s pos) :=
+    funext fun fuel => runL_congr (f := { r := [1, 2] }) (by agree_tac) E k fuel _ (by decide) s pos
+  rw [hc]
+  exact rule_til_returns E k hk n _ _ s pos
+
+theorem decoded_lenprefix (E : Env) (k : OK Nat) (n : Nat) (P : Program) (pc : Nat) (s : St) (pos : Nat)
+    (hpc : pc < P.bytecode.size) (hop : P.word pc = RULE_LENPREFIX) (hE : E.lenprefixLeak = false) :
+    ∃ i, decode P pc = some i ∧
+      Returns (fun fuel => runL E k (rawOps P pc 3) fuel Gen.PegSkel.RULE_LENPREFIX s pos) (Op.step E k n i s pos) := by
+  refine ⟨.lenprefix (P.word (pc + 1)) (P.word (pc + 2)), by decode_tac hpc hop, ?_⟩
+  have hc : (fun fuel => runL E k (rawOps P pc 3) fuel Gen.PegSkel.RULE_LENPREFIX s pos) =
+      (fun fuel => runL E k (ops [(1, (P.word (pc + 1))), (2, (P.word (pc + 2)))] []) fuel Gen.PegSkel.RULE_LENPREFIX s pos) :=
+    funext fun fuel => runL_congr (f := { r := [1, 2] }) (by agree_tac) E k fuel _ (by decide) s pos
+  rw [hc]
+  exact rule_lenprefix_returns E hE k n _ _ s pos
+
+theorem decoded_between (E : Env) (k : OK Nat) (n : Nat) (P : Program) (pc : Nat) (s : St) (pos : Nat)
+    (hpc : pc < P.bytecode.size) (hop : P.word pc = RULE_BETWEEN)
+    (hn : ∀ s0, down1 s = .ok s0 → Op.betweenLoop k (P.word (pc + 3)) (P.word (pc + 2)) n 0 s0 pos ≠ .error .fuel) :
+    ∃ i, decode P pc = some i ∧
+      Returns (fun fuel => runL E k (rawOps P pc 4) fuel Gen.PegSkel.RULE_BETWEEN s pos) (Op.step E k n i s pos) := by
+  refine ⟨.between (P.word (pc + 1)) (P.word (pc + 2)) (P.word (pc + 3)), by decode_tac hpc hop, ?_⟩
+  have hc : (fun fuel => runL E k (rawOps P pc 4) fuel Gen.PegSkel.RULE_BETWEEN s pos) =
+      (fun fuel => runL E k (ops [(3, (P.word (pc + 3)))] [(1, (P.word (pc + 1))), (2, (P.word (pc + 2)))]) fuel Gen.PegSkel.RULE_BETWEEN s pos) :=
+    funext fun fuel => runL_congr (f := { r := [3], w := [1, 2] }) (by agree_tac) E k fuel _ (by decide) s pos
+  rw [hc]
+  exact rule_between_returns E k n _ _ _ s pos hn
+
+theorem decoded_split (E : Env) (k : OK Nat) (n : Nat) (P : Program) (pc : Nat) (s : St) (pos : Nat)
+    (hpc : pc < P.bytecode.size) (hop : P.word pc = RULE_SPLIT)
+    (hn : Op.step E k n (.split (P.word (pc + 1)) (P.word (pc + 2))) s pos ≠ .error .fuel) :
+    ∃ i, decode P pc = some i ∧
+      Returns (fun fuel => runL E k (rawOps P pc 3) fuel Gen.PegSkel.RULE_SPLIT s pos) (Op.step E k n i s pos) := by
+  refine ⟨.split (P.word (pc + 1)) (P.word (pc + 2)), by decode_tac hpc hop, ?_⟩
+  have hc : (fun fuel => runL E k (rawOps P pc 3) fuel Gen.PegSkel.RULE_SPLIT s pos) =
+      (fun fuel => runL E k (ops [(1, (P.word (pc + 1))), (2, (P.word (pc + 2)))] []) fuel Gen.PegSkel.RULE_SPLIT s pos) :=
+    funext fun fuel => runL_congr (f := { r := [1, 2] }) (by agree_tac) E k fuel _ (by decide) s pos
+  rw [hc]
+  exact rule_split_returns E k n _ _ s pos hn
+
+theorem decoded_unref (E : Env) (k : OK Nat) (n : Nat) (P : Program) (pc : Nat) (s : St) (pos : Nat)
+    (hpc : pc < P.bytecode.size) (hop : P.word pc = RULE_UNREF) :
+    ∃ i, decode P pc = some i ∧
+      Returns (fun fuel => runL E k (rawOps P pc 3) fuel Gen.PegSkel.RULE_UNREF s pos) (Op.step E k n i s pos) := by
+  refine ⟨.unref (P.word (pc + 1)) (P.word (pc + 2)), by decode_tac hpc hop, ?_⟩
+  have hc : (fun fuel => runL E k (rawOps P pc 3) fuel Gen.PegSkel.RULE_UNREF s pos) =
+      (fun fuel => runL E k (ops [(1, (P.word (pc + 1)))] [(2, (P.word (pc + 2)))]) fuel Gen.PegSkel.RULE_UNREF s pos) :=
+    funext fun fuel => runL_congr (f := { r := [1], w := [2] }) (by agree_tac) E k fuel _ (by decide) s pos
+  rw [hc]
+  exact rule_unref_returns E k n _ _ s pos
+
+theorem decoded_gettag (E : Env) (k : OK Nat) (n : Nat) (P : Program) (pc : Nat) (s : St) (pos : Nat)
+    (hpc : pc < P.bytecode.size) (hop : P.word pc = RULE_GETTAG) :
+    ∃ i, decode P pc = some i ∧
+      Returns (fun fuel => runL E k (rawOps P pc 3) fuel Gen.PegSkel.RULE_GETTAG s pos) (Op.step E k n i s pos) := by
+  refine ⟨.gettag (P.word (pc + 1)) (P.word (pc + 2)), by decode_tac hpc hop, ?_⟩
+  have hc : (fun fuel => runL E k (rawOps P pc 3) fuel Gen.PegSkel.RULE_GETTAG s pos) =
+      (fun fuel => runL E k (ops [] [(1, (P.word (pc + 1))), (2, (P.word (pc + 2)))]) fuel Gen.PegSkel.RULE_GETTAG s pos) :=
+    funext fun fuel => runL_congr (f := { w := [1, 2] }) (by agree_tac) E k fuel _ (by decide) s pos
+  rw [hc]
+  exact ⟨0, fun fuel _ => rule_gettag E k n fuel _ _ s pos⟩
+
+theorem decoded_backmatch (E : Env) (k : OK Nat) (n : Nat) (P : Program) (pc : Nat) (s : St) (pos : Nat)
+    (hpc : pc < P.bytecode.size) (hop : P.word pc = RULE_BACKMATCH) :
+    ∃ i, decode P pc = some i ∧
+      Returns (fun fuel => runL E k (rawOps P pc 2) fuel Gen.PegSkel.RULE_BACKMATCH s pos) (Op.step E k n i s pos) := by
+  refine ⟨.backmatch (P.word (pc + 1)), by decode_tac hpc hop, ?_⟩
+  have hc : (fun fuel => runL E k (rawOps P pc 2) fuel Gen.PegSkel.RULE_BACKMATCH s pos) =
+      (fun fuel => runL E k (ops [] [(1, (P.word (pc + 1)))]) fuel Gen.PegSkel.RULE_BACKMATCH s pos) :=
+    funext fun fuel => runL_congr (f := { w := [1] }) (by agree_tac) E k fuel _ (by decide) s pos
+  rw [hc]
+  exact ⟨0, fun fuel _ => rule_backmatch E k n fuel _ s pos⟩
+
+theorem decoded_choice (E : Env) (k : OK Nat) (n : Nat) (P : Program) (pc : Nat) (s : St) (pos : Nat)
+    (hpc : pc < P.bytecode.size) (hop : P.word pc = RULE_CHOICE) :
+    ∃ i, decode P pc = some i ∧
+      Returns (fun fuel => runL E k (rawOps P pc (2 + P.word (pc + 1))) fuel Gen.PegSkel.RULE_CHOICE s pos) (Op.step E k n i s pos) := by
+  refine ⟨.choice ((List.range (P.word (pc + 1))).map (fun j => P.word (pc + 2 + j))), by decode_tac hpc hop, ?_⟩
+  have hc : (fun fuel => runL E k (rawOps P pc (2 + P.word (pc + 1))) fuel Gen.PegSkel.RULE_CHOICE s pos) =
+      (fun fuel => runL E k (opsList ((List.range (P.word (pc + 1))).map (fun j => P.word (pc + 2 + j)))) fuel Gen.PegSkel.RULE_CHOICE s pos) :=
+    funext fun fuel => runL_congr (f := { rFrom := some 2, w := [1] }) (by
+      constructor <;> intro j hj <;> simp [FP.W, FP.R, FP.C, FP.B] at hj
+      · subst hj; simp [rawOps, opsList, opsWord]; omega
+      · simp only [rawOps, opsList, hj, if_true]
+        by_cases hlt : j < 2 + P.word (pc + 1)
+        · have h1 : j - 2 < P.word (pc + 1) := by omega
+          have h2 : pc + 2 + (j - 2) = pc + j := by omega
+          simp [hlt, h1, h2]
+        · have h1 : ¬ (j - 2 < P.word (pc + 1)) := by omega
+          simp [hlt, h1]) E k fuel _ (by decide) s pos
+  rw [hc]
+  exact rule_choice_returns E k n _ s pos
+
+theorem decoded_sequence (E : Env) (k : OK Nat) (n : Nat) (P : Program) (pc : Nat) (s : St) (pos : Nat)
+    (hpc : pc < P.bytecode.size) (hop : P.word pc = RULE_SEQUENCE) :
+    ∃ i, decode P pc = some i ∧
+      Returns (fun fuel => runL E k (rawOps P pc (2 + P.word (pc + 1))) fuel Gen.PegSkel.RULE_SEQUENCE s pos) (Op.step E k n i s pos) := by
+  refine ⟨.sequence ((List.range (P.word (pc + 1))).map (fun j => P.word (pc + 2 + j))), by decode_tac hpc hop, ?_⟩
+  have hc : (fun fuel => runL E k (rawOps P pc (2 + P.word (pc + 1))) fuel Gen.PegSkel.RULE_SEQUENCE s pos) =
+      (fun fuel => runL E k (opsList ((List.range (P.word (pc + 1))).map (fun j => P.word (pc + 2 + j)))) fuel Gen.PegSkel.RULE_SEQUENCE s pos) :=
+    funext fun fuel => runL_congr (f := { rFrom := some 2, w := [1] }) (by
+      constructor <;> intro j hj <;> simp [FP.W, FP.R, FP.C, FP.B] at hj
+      · subst hj; simp [rawOps, opsList, opsWord]; omega
+      · simp only [rawOps, opsList, hj, if_true]
+        by_cases hlt : j < 2 + P.word (pc + 1)
+        · have h1 : j - 2 < P.word (pc + 1) := by omega
+          have h2 : pc + 2 + (j - 2) = pc + j := by omega
+          simp [hlt, h1, h2]
+        · have h1 : ¬ (j - 2 < P.word (pc + 1)) := by omega
+          simp [hlt, h1]) E k fuel _ (by decide) s pos
+  rw [hc]
+  exact rule_sequence_returns E k n _ s pos
+
+end Decoded
 
 end JanetModel.Peg.TieSkel
